@@ -289,6 +289,31 @@ def _worker_chunk(args):
     return out
 
 
+def _isolated_job(args):
+    fn_name, case, times = args
+    out = []
+    for _ in range(times):
+        r = call_case(_MOD, fn_name, case)
+        out.append([v['sig'] for v in r.violations])
+    return out
+
+
+def isolated_calls(modname, seed, repo, fn_name, case, times=2):
+    """The case function `times` times in ONE fresh worker process: ('ok', [[signatures] per call]) or ('died', None)
+    when the process does not survive (a crash inside compiled code of the implementation)."""
+    import multiprocessing as mp
+    from concurrent.futures import ProcessPoolExecutor
+    from concurrent.futures.process import BrokenProcessPool
+    ex = ProcessPoolExecutor(1, mp_context=mp.get_context('spawn'), initializer=_worker_init,
+                             initargs=(modname, seed, repo))
+    try:
+        return 'ok', ex.submit(_isolated_job, (fn_name, case, times)).result()
+    except BrokenProcessPool:
+        return 'died', None
+    finally:
+        ex.shutdown(wait=False, cancel_futures=True)
+
+
 def pack(r):
     return {'checks': r.checks, 'violations': r.violations, 'outcome': r.outcome,
             'nontrivial': r.nontrivial, 'counters': r.counters, 'key': r.key, 'extra': r.extra}
@@ -326,16 +351,69 @@ class Ctx(object):
     def pool(self):
         if self._pool is None and self.workers > 1:
             import multiprocessing as mp
-            self._pool = mp.get_context('spawn').Pool(
-                self.workers, initializer=_worker_init,
-                initargs=(self.modname, self.seed, self.repo))
+            from concurrent.futures import ProcessPoolExecutor
+            # an executor (not multiprocessing.Pool): the death of a worker process - a crash inside compiled code of
+            # the implementation - is reported (BrokenProcessPool) instead of leaving the run waiting for ever
+            self._pool = ProcessPoolExecutor(self.workers, mp_context=mp.get_context('spawn'), initializer=_worker_init,
+                                             initargs=(self.modname, self.seed, self.repo))
         return self._pool
 
     def close(self):
         if self._pool is not None:
-            self._pool.terminate()
-            self._pool.join()
+            try:
+                self._pool.shutdown(wait=False, cancel_futures=True)
+            except Exception:
+                pass
             self._pool = None
+
+    def _run_chunks(self, fn_name, chunks, results):
+        """All chunks through the worker processes.  When a worker dies the pool is rebuilt and the chunks that were lost
+        with it are run again, split in two once they have been lost twice; a single case that kills its process is a
+        violation ('crash/worker-process-died')."""
+        from concurrent.futures import as_completed
+        from concurrent.futures.process import BrokenProcessPool
+        queue = [(c, 0) for c in chunks]
+        breaks = 0
+        while queue:
+            ex = self.pool()
+            futs = {}
+            for c, lost in queue:
+                futs[ex.submit(_worker_chunk, (fn_name, c))] = (c, lost)
+            queue = []
+            broken = False
+            for f in as_completed(futs):
+                c, lost = futs[f]
+                try:
+                    out = f.result()
+                except BrokenProcessPool:
+                    broken = True
+                    if len(c) == 1 and lost >= 1:
+                        i, case = c[0]
+                        results[i] = {'checks': 1, 'violations': [{'sub': 'no-crash', 'sig': 'crash/worker-process-died/%s' % fn_name,
+                                                                     'detail': {'case': jsonable(case)}}],
+                                      'outcome': None, 'nontrivial': False, 'counters': {}, 'key': None, 'extra': None}
+                    elif lost >= 1 and len(c) > 1:
+                        h = len(c) // 2
+                        queue += [(c[:h], lost), (c[h:], lost)]
+                    else:
+                        queue.append((c, lost + 1))
+                    continue
+                for i, p in out:
+                    results[i] = p
+            if broken:
+                breaks += 1
+                self.close()
+                self.counters['worker-process-deaths'] = self.counters.get('worker-process-deaths', 0) + 1
+                if breaks > 40:
+                    for c, lost in queue:
+                        for i, case in c:
+                            results[i] = {'checks': 1, 'violations': [{'sub': 'no-crash',
+                                                                         'sig': 'crash/worker-process-died/%s' % fn_name,
+                                                                         'detail': {'case': jsonable(case), 'unresolved': True}}],
+                                          'outcome': None, 'nontrivial': False, 'counters': {}, 'key': None, 'extra': None}
+                    self.exhaustive = False
+                    self.notes.append('more than 40 worker deaths in %s: remaining cases not run' % fn_name)
+                    return
 
     # -- E1 ------------------------------------------------------------------------------
     def run_cases(self, fn_name, cases, phase=None, chunk=None, serial=False, state_of=None):
@@ -347,16 +425,18 @@ class Ctx(object):
             return []
         indexed = list(enumerate(cases))
         results = [None] * n
-        if serial or self.workers <= 1 or n < 2 * self.workers:
+        if self.workers <= 1:
             for i, case in indexed:
                 results[i] = pack(call_case(self.mod, fn_name, case))
         else:
-            if chunk is None:
+            # never in this (the reporting) process: a crash inside compiled code of the implementation must not take
+            # the report with it.  serial: one chunk, in order, in one worker.
+            if serial:
+                chunk = n
+            elif chunk is None:
                 chunk = max(1, min(256, n // (self.workers * 8) or 1))
             chunks = [indexed[k:k + chunk] for k in range(0, n, chunk)]
-            for out in self.pool().imap_unordered(_worker_chunk, [(fn_name, c) for c in chunks]):
-                for i, p in out:
-                    results[i] = p
+            self._run_chunks(fn_name, chunks, results)
         tag = phase or fn_name
         for i, p in enumerate(results):
             self.evaluations += 1
